@@ -6,10 +6,10 @@ import graphs as G, tablecorr as TC
 OP_IGAM = 9
 
 
-def gen_sample_case(r, emax=6, Ds=(1, 2, 3, 4, 5, 6), massless_share=0.3, stability=None, fams=None, zero_shift_share=0.15, ext_all=False, all_masses=False):
+def gen_sample_case(r, emax=6, Ds=(1, 2, 3, 4, 5, 6), massless_share=0.3, stability=None, fams=None, zero_shift_share=0.15, ext_all=False, all_masses=False, connected=True):
     """accepted connected graph with >= 1 loop, a cycle-basis signature, a point, edge data"""
     for _ in range(50):
-        g = G.gen_accepted(r, emax=emax, connected=True, Ds=Ds, fams=fams, ext_all=ext_all)
+        g = G.gen_accepted(r, emax=emax, connected=connected, Ds=Ds, fams=fams, ext_all=ext_all)
         pairs = [(e[0], e[1]) for e in g["edges"]]
         E = len(pairs)
         L = G.loop_number(pairs, list(range(E)))
@@ -206,7 +206,7 @@ def cmp_field(name, a, b, rel):
     return [] if rel_close(b2f(a), b2f(b), rel) else ["%s: impl %r model %r" % (name, b2f(a), b2f(b))]
 
 
-def standard_run(rep, rng, tier, tag, fields, rel, n_quick=60, n_thorough=600, nontrivial=None, extra_cases=None, **gen_kw):
+def standard_run(rep, rng, tier, tag, fields, rel, n_quick=60, n_thorough=600, nontrivial=None, extra_cases=None, keep_mismatch=False, **gen_kw):
     """generate cases, run implementation and model, compare `fields` under relative tolerance `rel`.
     yields (case, impl_f64_fields, model, raw_impl) for cases where both succeeded."""
     n = n_quick if tier == "quick" else n_thorough
@@ -229,6 +229,8 @@ def standard_run(rep, rng, tier, tag, fields, rel, n_quick=60, n_thorough=600, n
         if fi["tag"] != m["tag"] or (fi["tag"] == "err" and fi["err"] != m["err"]):
             rep.violation("correspondence", "outcome: implementation %s, model %s" % (
                 {k: fi[k] for k in fi if k in ("tag", "err", "why")}, {k: m[k] for k in m if k in ("tag", "err", "why")}), case=c)
+            if keep_mismatch and fi["tag"] == "ok":
+                out.append((c, fi, None, o, x["table"]))      # the caller's direct oracles still judge the implementation's result
             continue
         if fi["tag"] != "ok":
             continue
